@@ -16,12 +16,12 @@ CHECKS = {
          "DESIGN.md §5 C20, §4 E7"),
  "C04": ("mc-sem", "translation_validation",
          "exhaustive program enumeration evaluated by a reference evaluator written from LANGUAGE.md and by wac; E2 provenance equality on the encoded bytes",
-         "Programs = a fixed prefix binding every kind of value the name-inference rules distinguish (imports by path / inline type / `as`, an instance from `new`, accesses, named accesses, a let alias) followed by one `new` whose argument list is the product of per-import supply modes (omitted, inferred via each bound name, named by identifier, named by string, mismatching) x spreads x `...` x argument order, every export form (plain, `as` id / string, spread, after a conflicting export, nested, last-segment access), 25 single-fault variants (incl. string names that are only the last segment or lack the version of an import name) and nested `new`; ~15k programs quick, ~40k thorough. Each program's outcome class must equal the reference evaluator's (the diagnostic the reference names, or a composition), and for compositions the independent E2 reading of the bytes (instantiations with per-name argument provenance, exports, explicit imports) must equal the evaluator's.",
+         "Programs = a fixed prefix binding every kind of value the name-inference rules distinguish (imports by path / inline type / `as`, an instance from `new`, accesses, named accesses, a let alias) followed by one `new` whose argument list is the product of per-import supply modes (omitted, inferred via each bound name, named by identifier, named by string, mismatching) x spreads x `...` x argument order, every export form (plain, `as` id / string, spread, after a conflicting export, nested, last-segment access), 25 single-fault variants (incl. string names that are only the last segment or lack the version of an import name) nested `new`, an export product (15 source expressions x 6 export options, singly and in ordered pairs) and an access product (9 bases x 15 accessors, bound by let and exported); ~57k programs quick. Each program's outcome class must equal the reference evaluator's (the diagnostic the reference names, or a composition), and for compositions the independent E2 reading of the bytes (instantiations with per-name argument provenance, exports, explicit imports) must equal the evaluator's.",
          "Trusts the evaluator (DESIGN.md A.4) and the E2 reader. Library LibL covers plain names, interface paths with and without versions, ambiguous and unique last segments; type compatibility is the resource-free structural rule.",
          "DESIGN.md §5 C04, §4 E5, A.4"),
  "C05": ("mc-sem", "translation_validation",
          "exhaustive enumeration of generated WIT packages encoded by wac and by the reference WIT toolchain, compared inside one validator",
-         "Every package of the bounded WIT enumeration (all type declarations x function shapes, pairs of declarations, dependent declarations, resources with every member subset, `use` chains of three to five interfaces / diamonds / renames / derived types over every base declaration, world-level use / types / inline interfaces / paths / include with 0-2 renames, versioned and unversioned; ~300 packages quick, ~850 thorough) is parsed, resolved and encoded by wac as a WAC document and encoded by wit-component; both artefacts are nested in one wrapper component validated once: every interface type must be a mutual subtype of the reference's (wasmparser is_subtype_of), every world must have the same explicit imports and exports with equal canonical types.",
+         "Every package of the bounded WIT enumeration (all type declarations x function shapes, pairs of declarations, dependent declarations, resources with every member subset, `use` chains of three to five interfaces / diamonds / renames / derived types over every base declaration, world-level use / types / inline interfaces / paths / include with 0-2 renames, versioned and unversioned; plus the world-shape product family: every ordered sequence of 1..3 distinct world items from a 17-item alphabet - world-level use / renamed use / use through a second interface, world-level record and alias, interface paths in both directions, function items over the latest named type, inline interfaces, include with and without `with` - over a record and a full-resource base (thorough: 7 bases); ~5000 packages quick) is parsed, resolved and encoded by wac as a WAC document and encoded by wit-component; both artefacts are nested in one wrapper component validated once: every interface type must be a mutual subtype of the reference's (wasmparser is_subtype_of), every world must have the same explicit imports and exports with equal canonical types.",
          "Trusts wit-parser/wit-component 0.247 as the reference WIT semantics and wasmparser's subtyping. Interfaces a world depends on only through `use` are not 'explicit imports' (wac encodes them types-only) and are compared by presence.",
          "DESIGN.md §5 C05, §4 E3"),
  "C11": ("mc-sem", "exploration",
@@ -41,7 +41,7 @@ CHECKS = {
          "DESIGN.md §5 C17"),
  "C08": ("mc-graph", "exploration",
          "exhaustive enumeration of generated WIT worlds built into real components; decoded world vs the reference validator's type tables via two independent canonical printers; wrapper-component subtyping for re-encoded dependency types",
-         "Every world of every package of the bounded WIT enumeration (all type declarations x function shapes, dependent declarations, `use` chains of three to five interfaces/diamonds/renames/derived types, world-level use/types/include-with; ~600 components quick, ~1500 thorough) is built into a real component, loaded with Package::from_bytes, and compared with wasmparser's view: import/export names in order, per-item canonical type (kinds, parameter names and order, results, async, value types, resource identity and aliasing through one resource numbering per world), instance type = exports, used-type provenance against type identity in the validator, and - with define_components=false - the original component must be a subtype of the written `unlocked-dep` component type inside one wrapper. The 170-item hand-shaped type universe of C07 (every import kind incl. core modules) and the LibHand components are compared the same way.",
+         "Every world of every package of the bounded WIT enumeration (all type declarations x function shapes, dependent declarations, `use` chains of three to five interfaces/diamonds/renames/derived types, world-level use/types/include-with; plus every world of the world-shape product family the reference toolchain accepts; ~5000 components quick) is built into a real component, loaded with Package::from_bytes, and compared with wasmparser's view: import/export names in order, per-item canonical type (kinds, parameter names and order, results, async, value types, resource identity and aliasing through one resource numbering per world), instance type = exports, used-type provenance against type identity in the validator, and - with define_components=false - the original component must be a subtype of the written `unlocked-dep` component type inside one wrapper. The 170-item hand-shaped type universe of C07 (every import kind incl. core modules) and the LibHand components are compared the same way.",
          "Trusts wasmparser's type tables and the two printers (mc-core e2::Canon / canon_wac). Type shapes are those of the generator.",
          "DESIGN.md §5 C08, §4 E3"),
  "C07": ("mc-graph", "model_checking",
